@@ -306,6 +306,108 @@ def b_conformance(wd, n_beh, depth=10, corrupt=False, n_clusters=20, grow=False,
             "calls": dict(collections.Counter(st["op"]["op"] for b in list(hists)[:n_beh] for st in json.loads(b)))}
 
 
+FILEB_CFG = """SPECIFICATION Spec
+CONSTANT N = %d
+CONSTANT CS = 2
+CONSTANT MaxOps = %d
+CONSTANT MaxLen = 3
+CONSTANT Legacy = %s
+CONSTANT Gen = %s
+INVARIANT RepInv
+INVARIANT SizeChain
+INVARIANT Content
+INVARIANT PosOk
+INVARIANT Ownership
+INVARIANT Flushed
+INVARIANT ResultsOk
+VIEW View
+CHECK_DEADLOCK FALSE
+"""
+FILEB_CELL = 256
+
+
+def fileb_program(pid, hist, n_clusters, corrupt=False):
+    """a behaviour of FileB as a program: one open handle F on F.BIN, a second file O.BIN that is appended to / emptied through short-lived
+    handles; a cell is 256 bytes, a cluster two cells; `tag` carries the model's prediction after the call"""
+    U = FILEB_CELL
+    ops = [{"op": "create_file", "at": "", "path": "F.BIN", "as": "F"},
+           {"op": "create_file", "at": "", "path": "O.BIN", "as": "O"}, {"op": "close", "h": "O"}]
+    for k, st in enumerate(hist):
+        o = st["op"]
+        tag = {"cell": U, "res": st["res"], "fat": st["fat"], "ent": st["ent"], "oth": st["oth"], "cmp": "both"}
+        if corrupt and k == len(hist) - 1:           # binding demonstration: falsify the predicted entry of the other file / a table cell
+            tag = json.loads(json.dumps(tag))
+            kk = str(n_clusters + 1)
+            tag["fat"][kk] = -1 if tag["fat"][kk] == 0 else 0
+        name = o["op"]
+        if name == "write":
+            ops.append({"op": "write", "h": "F", "pat": 3 + k, "len": o["n"] * U, "tag": tag})
+        elif name == "read":
+            ops.append({"op": "read", "h": "F", "len": o["n"] * U, "tag": tag})
+        elif name == "seek":
+            ops.append({"op": "seek", "h": "F", "from": {"start": "start", "cur": "current", "end": "end"}[o["from"]], "off": o["x"] * U, "tag": tag})
+        elif name in ("truncate", "flush"):
+            ops.append({"op": name, "h": "F", "tag": tag})
+        elif name == "reopen":
+            ops.append({"op": "close", "h": "F"})
+            ops.append({"op": "open_file", "at": "", "path": "F.BIN", "as": "F", "tag": dict(tag, cmp="state")})
+        elif name == "oappend":
+            ops.append({"op": "open_file", "at": "", "path": "O.BIN", "as": "O"})
+            ops.append({"op": "seek", "h": "O", "from": "end", "off": 0})
+            ops.append({"op": "write", "h": "O", "pat": 90 + k, "len": 2 * U, "tag": dict(tag, res={"k": st["res"]["k"], **({"e": st["res"]["e"]} if "e" in st["res"] else {})}, cmp="res")})
+            ops.append({"op": "close", "h": "O", "tag": dict(tag, cmp="state")})
+        elif name == "oempty":
+            ops.append({"op": "open_file", "at": "", "path": "O.BIN", "as": "O"})
+            ops.append({"op": "truncate", "h": "O"})
+            ops.append({"op": "close", "h": "O", "tag": dict(tag, cmp="state")})
+    ops.append({"op": "close", "h": "F"})
+    ops.append({"op": "unmount"})
+    # (format_volume refuses volumes of fewer than 8 clusters: the image builder makes the 4..6 cluster volume of the model)
+    vol = {"kind": "builder", "ft": 12, "bps": 512, "spc": 1, "n": n_clusters, "nfats": 1, "rsvd": 1, "rootn": 16, "pad": "eoc", "tree": []}
+    return {"id": pid, "cfg": {"vol": vol, "cell": U}, "ops": ops, "origin": "tlc:FileB"}
+
+
+def mc_file_b(wd, sample_rng=None, corrupt=False):
+    """design-level model checking of the file cursor machine (FileB: read / write / seek / truncate / flush / reopen of file.rs over a small
+    table, a second file fragmenting it), and its binding to the code: every transition of the explored state graph is printed as a program
+    with the model's prediction after each call, replayed on the real library (quick: a sample) and compared (TraceB: result, table, both
+    directory entries); the same programs are judged by Layer A (TraceFatFs) like every other program"""
+    n, ops = scale((5, 8), (6, 11))
+    r = core.mc_run("FileB", FILEB_CFG % (n, ops, "{}", "FALSE"), wd, "fileb", workers=8, xmx="10g")
+    if not r["ok"]:
+        raise core.ToolError("FileB model checking failed:\n" + r["out_tail"])
+    out = {"spec": "FileB", "constants": {"N": n, "CS": 2, "MaxOps": ops, "MaxLen": 3}, "states": r["states"], "distinct": r["distinct"], "depth": r["depth"],
+           "wall": r["wall"], "invariants": ["RepInv", "SizeChain", "Content", "PosOk", "Ownership", "Flushed", "ResultsOk"], "ok": True}
+    if core.tier() == "thorough":
+        # the complete reachable state space of the model on a 3-cluster table (no bound on the number of calls: the model is finite)
+        c = core.mc_run("FileB", FILEB_CFG % (3, 9999, "{}", "FALSE"), wd, "fileb-all", workers=12, xmx="14g", timeout=6000)
+        if not c["ok"]:
+            raise core.ToolError("FileB model checking (complete, N=3) failed:\n" + c["out_tail"])
+        out["complete_state_space"] = {"N": 3, "CS": 2, "MaxLen": 3, "states": c["states"], "distinct": c["distinct"], "depth": c["depth"], "wall": c["wall"]}
+        out["states"] += c["states"]
+        out["distinct"] += c["distinct"]
+    gn, gops = scale((4, 5), (4, 7))
+    # (one worker: which history reaches a state first, and with it the set of printed programs, is then the same in every run)
+    g = core.mc_run("FileB", FILEB_CFG % (gn, gops, "{}", "TRUE"), wd, "fileb-gen", workers=1, want_progs=True, xmx="6g")
+    if not g["ok"]:
+        raise core.ToolError("FileB generation failed:\n" + g["out_tail"])
+    hists = g.pop("progs")
+    out["transitions_as_programs"] = len(hists)
+    k = scale(1200, 12000)
+    if sample_rng is not None and len(hists) > k:
+        hists = sample_rng.sample(hists, k)
+    progs = [fileb_program("fileb-%d" % i, h, gn, corrupt=corrupt) for i, h in enumerate(hists)]
+    out["replayed"] = len(progs)
+    return out, progs
+
+
+def fileb_drift(name, progs, wd):
+    r = core.campaign(name, progs, wd, spec="TraceB", n_shards=8)
+    drift = [t for t in r.notes if str(t[0]).startswith("B.")]
+    return {"behaviours": len(progs), "events": r.events, "compared": len([t for t in r.infos if t[0] == "compared"]), "drift": len(drift),
+            "drift_samples": [list(t) for t in drift[:5]], "tool_errors": r.tool_errors[:1]}
+
+
 def units_str(u):
     return "".join(chr(x) for x in u)
 
@@ -391,8 +493,24 @@ def c02():
         if i % 2:
             p["cfg"] = dict(p["cfg"], short=rng.randrange(1, 1 << 30))
     res.append(("io-stdio", core.campaign("io-stdio", std, wd, feat="refstd")))
-    core.finish("C02", LEVEL, res, None, t0,
-                "random and boundary (k*cluster-1, k*cluster, k*cluster+1) seek/read/write/truncate/flush/reopen programs on 1-3 interleaved files; "
+    # a transient storage error in the flush that should store the entry, then a good flush / close: a fresh handle reads what was written
+    ff = [gen.flush_fault_io_program(rng, "flush-fault-%d" % i, gen.K(["K1b", "K2", "K5"][i % 3]), CS[["K1b", "K2", "K5"][i % 3]]) for i in range(scale(24, 240))]
+    res.append(("io-flush-fault", core.campaign("io-flush-fault", ff, wd)))
+    # design level: the cursor machine of file.rs (FileB) model-checked, every transition of its state graph replayed on the code
+    mc, fprogs = mc_file_b(wd, rng_for("C02", 31))
+    res.append(("mc-fileb", core.campaign("mc-fileb", fprogs, wd, n_shards=12)))
+    mc["impl_model_conformance"] = fileb_drift("fileb-drift", fprogs, wd)
+    if mc["impl_model_conformance"]["tool_errors"]:
+        raise core.ToolError("FileB conformance replay failed:\n" + mc["impl_model_conformance"]["tool_errors"][0])
+    mc["impl_model_conformance"].pop("tool_errors")
+    if mc["impl_model_conformance"]["drift"]:
+        print("NOTE: FileB no longer describes the code on %d of %d compared calls (model drift, not a violation): %s"
+              % (mc["impl_model_conformance"]["drift"], mc["impl_model_conformance"]["compared"], mc["impl_model_conformance"]["drift_samples"][:2]))
+    core.finish("C02", LEVEL, res, mc, t0,
+                "(0) TLC model-checks the file cursor machine (FileB: read / write / seek / truncate / flush / reopen as file.rs codes them, over a "
+                "5-6 cluster table fragmented by a second file) against the byte-array reference: representation invariant of the cursor, chain "
+                "length = ceil(size / cluster), content = reference, results allowed by the reference; every transition of the explored graph is "
+                "replayed on the library (quick: a sample) with the model's predicted result / table / entries compared; (1) random and boundary (k*cluster-1, k*cluster, k*cluster+1) seek/read/write/truncate/flush/reopen programs on 1-3 interleaved files; "
                 "TLC evaluates the byte-array model on every event",
                 ASSUME_TRACE)
 
@@ -1199,6 +1317,19 @@ def selftest(args):
         good = ": Error" in str(e)
     ok = ok and good
     print("FatInd Extend without count update: expected Apalache to refute the inductive step %s" % ("ok" if good else "MISSED"))
+    for flag, prop in {"seek_floor": "PosOk", "trunc_keep_first": "RepInv", "seek_from_current": "RepInv", "trunc_after_next": "SizeChain"}.items():
+        r = core.mc_run("FileB", FILEB_CFG % (4, 6, '{"%s"}' % flag, "FALSE"), wd, "flegacy")
+        good = (not r["ok"]) and prop in r["violated"]
+        ok = ok and good
+        print("FileB Legacy=%-23s expected counterexample to %-12s %s" % (flag, prop, "ok" if good else "MISSED"))
+    _, fp0 = mc_file_b(wd, random.Random(5))
+    _, fp1 = mc_file_b(wd, random.Random(5), corrupt=True)
+    f0 = fileb_drift("fb0", fp0[:60], wd)
+    f1 = fileb_drift("fb1", fp1[:60], wd)
+    good = f0["compared"] > 100 and f0["drift"] == 0 and f1["drift"] >= f1["behaviours"]
+    ok = ok and good
+    print("FileB replay              %d calls compared, drift %d; one predicted table cell falsified per behaviour: drift %d of %d  %s"
+          % (f0["compared"], f0["drift"], f1["drift"], f1["behaviours"], "ok" if good else "MISSED"))
     c0 = b_conformance(wd, 10)
     c1 = b_conformance(wd, 10, corrupt=True)
     good = c0["compared"] > 50 and c0["drift"] == 0 and c1["drift"] == c1["behaviours"]
